@@ -39,6 +39,8 @@ class Ctx:
         self.lane_counts = {}
         self.assumptions = []
         self.exhaustive = None
+        import glob
+        for f in glob.glob(os.path.join(REPLAYS, "%s-*.script" % pid)): os.remove(f)
     quick = property(lambda self: self.tier == "quick")
     def count(self, k, n=1): self.dist[k] = self.dist.get(k, 0) + n
     def merge_stats(self, st):
@@ -69,7 +71,7 @@ class Ctx:
             self.notes.append("model driver rc=%s: %s" % (res.mrc, res.merr[-300:]))
         d = None
         for i, (a, b) in enumerate(zip(res.hrecs, res.mrecs)):
-            if scope and not scope(a): continue
+            if a["op"] == "specdecode" or (scope and not scope(a)): continue
             if a["res"] != b["res"] or a["lines"] != b["lines"]:
                 d = i; break
         if d is None and not res.crash and len(res.hrecs) != len(res.mrecs):
